@@ -98,7 +98,8 @@ def generate(run_seed, tier):
                           fseed=r.getrandbits(32), mv=r.random() < 0.3,
                           buf=r.choice(["bytes", "bytes", "bytes", "mv",
                                         "bytearray", "arrayB", "arrayH",
-                                        "mvH", "arrayI"])))
+                                        "mvH", "arrayI", "arrayb", "mvb",
+                                        "mvc"])))
     return dict(order=n, items=items)
 
 
@@ -294,6 +295,14 @@ def _as_buffer(data, kind):
         return bytearray(data)
     if kind == "arrayB":
         return array.array("B", data)
+    if kind == "arrayb":
+        a = array.array("b")        # signed char items, same bytes
+        a.frombytes(data)
+        return a
+    if kind == "mvb" and data:
+        return memoryview(data).cast("b")
+    if kind == "mvc" and data:
+        return memoryview(data).cast("c")
     if kind in ("arrayH", "mvH") and len(data) % 2 == 0 and data:
         a = array.array("H")
         a.frombytes(data)
